@@ -91,6 +91,81 @@ def module_consts(path):
     return env, names
 
 
+def promotion_pairs(path):
+    """the (writer, reader) type-name pairs `match_types` accepts as promotions: every
+    `if/elif writer_type == C and reader_type (== C' | in [C'...])` whose body is `return True`"""
+    tree = ast.parse(open(path).read())
+    pairs = set()
+    for fn in ast.walk(tree):
+        if isinstance(fn, ast.FunctionDef) and fn.name == "match_types":
+            for node in ast.walk(fn):
+                if not (isinstance(node, ast.If) and isinstance(node.test, ast.BoolOp) and isinstance(node.test.op, ast.And)
+                        and len(node.test.values) == 2):
+                    continue
+                if not (len(node.body) == 1 and isinstance(node.body[0], ast.Return)
+                        and isinstance(node.body[0].value, ast.Constant) and node.body[0].value.value is True):
+                    continue
+                side = {}
+                for c in node.test.values:
+                    if (isinstance(c, ast.Compare) and isinstance(c.left, ast.Name) and len(c.ops) == 1
+                            and c.left.id in ("writer_type", "reader_type")):
+                        comp = c.comparators[0]
+                        if isinstance(c.ops[0], ast.Eq) and isinstance(comp, ast.Constant):
+                            side[c.left.id] = [comp.value]
+                        elif isinstance(c.ops[0], ast.In) and isinstance(comp, (ast.List, ast.Tuple, ast.Set)):
+                            side[c.left.id] = [e.value for e in comp.elts if isinstance(e, ast.Constant)]
+                if len(side) == 2:
+                    for w in side["writer_type"]:
+                        for r in side["reader_type"]:
+                            pairs.add((w, r))
+    return sorted(pairs)
+
+
+class _Probe:
+    """stands for `data` while `maybe_promote` is run over its finite decision domain"""
+    def __init__(self):
+        self.ops = []
+
+    def __float__(self):
+        self.ops.append("float")
+        return 0.0
+
+    def encode(self, *a):
+        self.ops.append("encode")
+        return self
+
+    def decode(self, *a):
+        self.ops.append("decode")
+        return self
+
+
+def promote_ops(path):
+    """`maybe_promote` decides on equality tests of its two type names against constants only, so
+    running it on every pair of those constants (plus one name that is none of them) tabulates it"""
+    src = open(path).read()
+    tree = ast.parse(src)
+    for fn in tree.body:
+        if isinstance(fn, ast.FunctionDef) and fn.name == "maybe_promote":
+            consts = sorted({n.value for n in ast.walk(fn) if isinstance(n, ast.Constant) and isinstance(n.value, str)})
+            names = {n.id for n in ast.walk(fn) if isinstance(n, ast.Name)}
+            allowed = {"data", "writer_type", "reader_type", "float", "int", "str", "bytes"}
+            if not names <= allowed:
+                raise Unsupported("maybe_promote refers to " + ", ".join(sorted(names - allowed)))
+            mod = ast.Module(body=[fn], type_ignores=[])
+            env = {}
+            exec(compile(mod, path, "exec"), {"__builtins__": {"float": float, "int": int, "str": str, "bytes": bytes}}, env)
+            f = env["maybe_promote"]
+            dom = consts + ["<other>"]
+            out = []
+            for w in dom:
+                for r in dom:
+                    p = _Probe()
+                    f(p, w, r)
+                    out.append((w, r, "+".join(p.ops) or "id"))
+            return out
+    return []
+
+
 def lean_str(s):
     return '"' + s.replace("\\", "\\\\").replace('"', '\\"') + '"'
 
@@ -144,6 +219,21 @@ def render(repo):
     out.append("def dispatch : List (String × List (String × String)) := [")
     out.append(",\n".join("  (%s, [%s])" % (lean_str(k), ", ".join("(%s, %s)" % (lean_str(a), lean_str(b)) for a, b in v))
                           for k, v in sorted(disp.items())))
+    out.append("]\n")
+    rp = os.path.join(fa, "_read_py.py")
+    try:
+        pairs = promotion_pairs(rp)
+    except Exception:
+        pairs = []
+    try:
+        pops = promote_ops(rp)
+    except Exception:
+        pops = []
+    out.append("def promotions : List (String × String) := [")
+    out.append(",\n".join("  (%s, %s)" % (lean_str(a), lean_str(b)) for a, b in pairs))
+    out.append("]\n")
+    out.append("def promoteOps : List (String × String × String) := [")
+    out.append(",\n".join("  (%s, %s, %s)" % (lean_str(a), lean_str(b), lean_str(c)) for a, b, c in pops))
     out.append("]\n")
     out.append("end Gen")
     return "\n".join(out) + "\n"
